@@ -73,6 +73,11 @@ func runC10(c *core.Ctx) {
 			name += fmt.Sprintf("%s+%dus,", p, dur/time.Microsecond)
 		}
 		cfg.PlanKind = name
+		if idx%4 == 3 {
+			wraps := [][2]int{{0, 64}, {4096, 4096}, {0, 4096}, {0, 0}}
+			wv := wraps[(idx/4)%len(wraps)]
+			cfg.Wrap = &wv
+		}
 		runtime.GOMAXPROCS(cfg.Procs)
 
 		// scribblers
